@@ -398,7 +398,7 @@ PROPS = {
     "C08": mc(jobs_c08, "(a) ALL 2^30 handle indices for the conversions, static and member forms; (b) " + B_STATE_Q + ": every live edge and face of every reachable state",
               "(a) all 2^30 indices; (b) " + B_STATE_T),
     "C09": mc(jobs_state("C09"), B_STATE_Q, B_STATE_T),
-    "C10": mc(jobs_state("C10"), B_STATE_Q + "; all ordered vertex pairs/triples(/4-tuples), all halfedge pairs, all (cell, ...) combinations per state", B_STATE_T),
+    "C10": mc(jobs_state("C10", heavy=("S2", "S4a", "S4b", "S5", "S10b", "S11", "S12", "S18a", "S19", "S7")), B_STATE_Q + "; all ordered vertex pairs/triples(/4-tuples), all halfedge pairs, all (cell, ...) combinations per state", B_STATE_T),
     "C11": mc(jobs_c11, "probe alphabet on every seed x 3 kernels x {deferred+fast, immediate} x vertex incidences {on, off}: add_edge over all ordered vertex pairs, add_face(list, check) over ALL halfedge tuples of length 0..3 (hex: 0..4) and add_cell(list, check) over ALL halfface tuples of length 0..4 (hex: 0..3) from a pool of 8 live handles; plus valid-argument construction histories depth 2 / 1",
               "tuples up to length 4 (faces) / 5 (cells), also after every single deletion and with all incidences off; construction histories depth 3 / 2 / 1",
               extra=["accept predicate: closed halfedge loop / every halfedge of the listed halffaces matched exactly once by its opposite (several disjoint closed surfaces are accepted, as by the code), plus the valence rules of the tet/hex kernels",
